@@ -198,7 +198,7 @@ func (r *Runner) builtin(ctx context.Context, pos syntax.Pos, name string, args 
 		switch len(args) {
 		case 0:
 		case 1:
-			if n2, err := strconv.Atoi(args[0]); err == nil {
+			if n2, err := strconv.Atoi(strings.Trim(args[0], " \t")); err == nil {
 				n = n2
 				break
 			}
